@@ -22,4 +22,7 @@ def build(tier="quick"):
     from contracts import c_common
 
     c_common.register(reg, tier)
+    from contracts import c_options
+
+    c_options.register(reg)
     return reg
